@@ -4,15 +4,18 @@ package c16
 
 import (
 	"context"
+	"crypto/tls"
 	"errors"
 	"fmt"
 	"io"
 	"log/slog"
+	"net"
 	"runtime"
 	"strings"
 	"sync"
 	"sync/atomic"
 	"time"
+	"verif/harness/props/c08"
 
 	kmip "github.com/ovh/kmip-go"
 	"github.com/ovh/kmip-go/kmipserver"
@@ -76,7 +79,10 @@ func (w *world) count(kind, req string) int {
 	return n
 }
 
-func newWorld() *world {
+func newWorld() *world { return newWorldOn(nil) }
+
+// newWorldOn: the server listens on the in-memory listener, optionally wrapped (TLS).
+func newWorldOn(wrap func(net.Listener) net.Listener) *world {
 	w := &world{l: memnet.Listen(), done: make(chan error, 1)}
 	ex := kmipserver.NewBatchExecutor()
 	ex.Route(kmip.OperationActivate, kmipserver.HandleFunc(func(ctx context.Context, req *payloads.ActivateRequestPayload) (*payloads.ActivateResponsePayload, error) {
@@ -101,7 +107,11 @@ func newWorld() *world {
 		}
 		return &payloads.ActivateResponsePayload{UniqueIdentifier: id}, nil
 	}))
-	w.srv = kmipserver.NewServer(w.l, ex).
+	var ln net.Listener = w.l
+	if wrap != nil {
+		ln = wrap(w.l)
+	}
+	w.srv = kmipserver.NewServer(ln, ex).
 		WithConnectHook(func(ctx context.Context) (context.Context, error) {
 			addr := kmipserver.RemoteAddr(ctx)
 			if _, fail := w.failOn.Load(addr); fail {
@@ -158,7 +168,9 @@ const (
 
 var shutNames = []string{"once", "twice-together", "twice-in-a-row", "listener-closed-first"}
 
-func scenario(c *core.Ctx, r *core.Rand, i int, withGrace bool) { scenarioMode(c, r, i, withGrace, shutOnce) }
+func scenario(c *core.Ctx, r *core.Rand, i int, withGrace bool) {
+	scenarioMode(c, r, i, withGrace, shutOnce)
+}
 
 func scenarioMode(c *core.Ctx, r *core.Rand, i int, withGrace bool, mode int) {
 	base := len(census.Goroutines())
@@ -610,6 +622,88 @@ func connectStorm(c *core.Ctx, r *core.Rand, i int) {
 	check(c, w, nil, serveErr, left, fmt.Sprintf("connect storm %d (%d connections before Shutdown)", i, target))
 }
 
+// tlsShutdown: a TLS listener; some peers never complete the handshake (plain bytes, garbage, nothing at all) while
+// TLS clients are served; then Shutdown. It returns within its bound, Serve ends, hooks are paired, nothing remains.
+func tlsShutdown(c *core.Ctx, r *core.Rand, i int) {
+	base := len(census.Goroutines())
+	srvCfg, cliCfg := c08.TLSConfigs()
+	w := newWorldOn(func(l net.Listener) net.Listener { return tls.NewListener(l, srvCfg) })
+	nBad := 1 + r.Intn(3)
+	kinds := ""
+	var idle []net.Conn
+	for k := 0; k < nBad; k++ {
+		conn, err := w.l.Dial()
+		if err != nil {
+			panic(err)
+		}
+		kind := r.Intn(3)
+		kinds += fmt.Sprint(kind)
+		switch kind {
+		case 0: // a plain-text probe: the handshake fails at once
+			conn.Write([]byte("GET / HTTP/1.0\r\n\r\n"))
+			go func() { io.Copy(io.Discard, conn); conn.Close() }()
+		case 1: // a plain KMIP client on the TLS port
+			conn.Write(request(fmt.Sprintf("tls%d-plain-%d-fast", i, k)))
+			go func() { io.Copy(io.Discard, conn); conn.Close() }()
+		default: // connects and says nothing; goes away a little later
+			idle = append(idle, conn)
+		}
+	}
+	// well-behaved TLS clients are served meanwhile
+	for k := 0; k < 2; k++ {
+		raw, err := w.l.Dial()
+		if err != nil {
+			panic(err)
+		}
+		tc := tls.Client(raw, cliCfg)
+		id := fmt.Sprintf("tls%d-good-%d-fast", i, k)
+		done := make(chan error, 1)
+		go func() {
+			if _, err := tc.Write(request(id)); err != nil {
+				done <- err
+				return
+			}
+			_, err := script.ReadFrame(tc)
+			done <- err
+		}()
+		select {
+		case err := <-done:
+			if err != nil {
+				c.Violation("C16:tls:good-client-not-served", fmt.Sprintf("a TLS client is not served while %d peers fail their handshake (kinds %s): %v", nBad, kinds, err), nil)
+			}
+		case <-time.After(20 * time.Second):
+			c.Violation("C16:tls:good-client-not-served", fmt.Sprintf("a TLS client is not served within 20 s while %d peers fail their handshake (kinds %s)", nBad, kinds), nil)
+		}
+		tc.Close()
+	}
+	for _, cn := range idle {
+		if r.Bool() {
+			cn.Close()
+		} else {
+			defer cn.Close()
+		}
+	}
+	time.Sleep(time.Duration(r.Intn(3)) * time.Millisecond)
+	w.log("shutdownCalled", "", "")
+	shut := make(chan error, 1)
+	go func() { err := w.srv.Shutdown(); w.log("shutdownReturned", "", ""); shut <- err }()
+	select {
+	case <-shut:
+	case <-time.After(30 * time.Second):
+		c.Violation("C16:shutdown-does-not-return", fmt.Sprintf("Shutdown has not returned after 30 s on a TLS listener where %d peers did not complete their handshake (kinds %s)", nBad, kinds), map[string]any{"goroutines": census.Goroutines()})
+		return
+	}
+	serveErr := <-w.done
+	for _, cn := range idle {
+		cn.Close()
+	}
+	left := census.Settle(base, 10*time.Second)
+	c.Count("tls_shutdowns", 1)
+	c.Count("tls_failed_handshake_peers", int64(nBad))
+	c.Distinct(core.Hash64("tls-shutdown", kinds))
+	check(c, w, nil, serveErr, left, fmt.Sprintf("TLS listener, %d peers without a completed handshake (kinds %s)", nBad, kinds))
+}
+
 var _ = io.EOF
 
 func Spec() *core.Spec {
@@ -622,7 +716,7 @@ func Spec() *core.Spec {
 			"an event log with a global logical clock (connect/terminate hooks with a connection id installed in the context, handler start/end/cancel, shutdown called/returned, Serve returned) is checked offline; " +
 			"grace-period scenarios take 3 s and are judged with a one-sided comparison (a cancellation must not come EARLIER than 2.9 s after Shutdown was called); directed schedule through the verif hook between Accept and wg.Add; connect storms (16 clients connecting in a loop on 2 processors while Shutdown is called). Shutdown called twice (together / in a row) or after the owner closed the listener, judged at the first return; distinct = distinct state combinations",
 		Assumptions: []string{"the documented grace period is 3 s; load can only make a cancellation later, so the one-sided comparison cannot be falsified by a slow machine", "goroutines gone = none with a library frame within 10 s after Shutdown returned"},
-		Required:    []string{"scenarios", "events", "paired_hooks", "failed_connect_hooks", "in_flight_answered", "in_flight_cancelled", "census_checks", "directed.accepted-not-yet-counted", "connect_storms", "shutdown_mode.twice-together", "shutdown_mode.twice-in-a-row", "shutdown_mode.listener-closed-first"},
+		Required:    []string{"scenarios", "tls_shutdowns", "events", "paired_hooks", "failed_connect_hooks", "in_flight_answered", "in_flight_cancelled", "census_checks", "directed.accepted-not-yet-counted", "connect_storms", "shutdown_mode.twice-together", "shutdown_mode.twice-in-a-row", "shutdown_mode.listener-closed-first"},
 		Shards:      func(string) int { return 8 },
 		Families: []core.Family{
 			{Name: "scenarios", N: func(tier string) int {
@@ -649,6 +743,12 @@ func Spec() *core.Spec {
 				}
 				return 16
 			}, Run: directed, Timeout: 90 * time.Second},
+			{Name: "tls-shutdown", N: func(tier string) int {
+				if tier == core.Thorough {
+					return 300
+				}
+				return 12
+			}, Run: tlsShutdown, Timeout: 120 * time.Second},
 			{Name: "connect-storm", N: func(tier string) int {
 				if tier == core.Thorough {
 					return 2000
